@@ -48,11 +48,18 @@
 (*                       an idle existing bucket panics outside recover)  *)
 (*  "LmtpCommitErrLost"  LMTP: per-recipient statuses are final before    *)
 (*                       Commit runs; a Commit failure is not reported    *)
+(*  "LmtpCommitAfterReject" LMTP: BodyNonAtomic returns early when a body *)
+(*                       check (or modifier) refuses the message for all  *)
+(*                       recipients, LMTPData still calls Commit: targets *)
+(*                       that never saw the body are committed            *)
 (***************************************************************************)
 EXTENDS SessionObs, Integers, TLC, SequencesExt, Json
 
 CONSTANTS Rcpts,      \* recipient identities used, subset of {"ra","rb","rc"}
           NTs,        \* numbers of targets explored, subset of 1..3
+          Lmtps,      \* protocols explored: subset of BOOLEAN (TRUE = LMTP)
+          Holds,      \* subset of BOOLEAN; TRUE = another session holds the only permit of the
+                      \* sender domain src.example for the whole conversation (source concurrency 1)
           Fails,      \* failure classes the environment may choose, subset of {"temp","perm"}
           MaxFaults,  \* faults per behaviour
           MaxCmds,    \* commands per behaviour
@@ -96,10 +103,12 @@ Route(c, r) ==
 
 \* LMTP: one target per recipient (two targets setting a status for the same recipient
 \* race with go-smtp's collector); SMTP never uses BodyNonAtomic
-Cfgs == {c \in [lmtp : BOOLEAN, defer : BOOLEAN, nt : NTs, shape : {"split", "fan"}, partial : BOOLEAN] :
+Cfgs == {c \in [lmtp : Lmtps, defer : BOOLEAN, nt : NTs, shape : {"split", "fan"}, partial : BOOLEAN,
+                 hold : Holds] :
            /\ c.lmtp => c.shape = "split"
            /\ ~c.lmtp => ~c.partial
-           /\ c.nt = 1 => c.shape = "split"}
+           /\ c.nt = 1 => c.shape = "split"
+           /\ c.hold => c.nt = 1}
 
 Res == {"ok"} \cup Fails
 CodeOf(res) == IF res = "temp" THEN 451 ELSE 550
@@ -117,7 +126,7 @@ NoPrc == [t \in AllTargets |-> <<>>]
 NoLm  == [on |-> FALSE, st |-> <<>>, sent |-> 0]
 
 M0 == [ helo |-> FALSE, from |-> FALSE, rcpts |-> <<>>, bdat |-> FALSE, alive |-> TRUE,
-        sx |-> FALSE, mf |-> "", d |-> FALSE, derr |-> FALSE,
+        sx |-> FALSE, mf |-> "", d |-> FALSE, derr |-> 0,      \* derr: reply code of the sticky error
         ctxnil |-> FALSE,   \* msgCtx was set to nil although a delivery is open (failed nested MAIL)
         pd |-> NoPd, prc |-> NoPrc,
         all |-> 0, src |-> [k \in Keys |-> -1],
@@ -125,9 +134,13 @@ M0 == [ helo |-> FALSE, from |-> FALSE, rcpts |-> <<>>, bdat |-> FALSE, alive |-
 
 H(e) == IF Gen THEN Append(hist, e) ELSE hist
 
+\* permits of the other session (cfg.hold): one of each scope, source key "src"
+Base(c) == IF c.hold THEN 1 ELSE 0
+MInit(c) == IF c.hold THEN [M0 EXCEPT !.all = 1, !.src["src"] = 1] ELSE M0
+
 InitWith(c) ==
-  /\ cfg = c /\ m = M0 /\ nf = 0 /\ ncmd = 0
-  /\ obs = ObsInit(c.lmtp)
+  /\ cfg = c /\ m = MInit(c) /\ nf = 0 /\ ncmd = 0
+  /\ obs = ObsInit(c.lmtp, Base(c))
   /\ hist = <<>>
 
 Init == \E c \in Cfgs : InitWith(c)
@@ -164,9 +177,9 @@ Clean(x) ==
   LET rel == Release(x, Dom(x.mf)) IN
   IF rel.crash
   THEN [rel.x EXCEPT !.stk = <<[k |-> "crash", n |-> 0]>>]
-  ELSE [rel.x EXCEPT !.mf = "", !.d = FALSE, !.derr = FALSE, !.ctxnil = FALSE, !.pd = NoPd, !.prc = NoPrc]
+  ELSE [rel.x EXCEPT !.mf = "", !.d = FALSE, !.derr = 0, !.ctxnil = FALSE, !.pd = NoPd, !.prc = NoPrc]
 
-FreshSession(x) == [x EXCEPT !.sx = TRUE, !.mf = "", !.d = FALSE, !.derr = FALSE, !.ctxnil = FALSE,
+FreshSession(x) == [x EXCEPT !.sx = TRUE, !.mf = "", !.d = FALSE, !.derr = 0, !.ctxnil = FALSE,
                              !.pd = NoPd, !.prc = NoPrc]
 
 Fill(lm, cls) == [lm EXCEPT !.st = [i \in 1..Len(lm.st) |-> IF lm.st[i] = 0 THEN cls ELSE lm.st[i]]]
@@ -215,16 +228,22 @@ Offered(x, c) ==
   /\ c.v = "BDAT" => x.from /\ x.rcpts # <<>>
   /\ c.v = "RCPT" /\ c.a \in {"ok", "up"} =>
         \A i \in 1..Len(x.rcpts) : x.rcpts[i].r = c.r => x.rcpts[i].up = (c.a = "up")
-  /\ c.v = "DATA" /\ c.a = "chk" => ~(cfg.lmtp /\ HasUp(x))
+  /\ c.v = "DATA" /\ c.a = "chk" => ~(cfg.lmtp /\ HasUp(x) /\ "LmtpStatusKey" \in Devs)
 
-\* Session.startDelivery from sender class f: [x, ok]
+\* the limit of the sender domain is exhausted for the whole 5 s wait of TakeMsg
+Busy(key) == cfg.hold /\ key = "src"
+
+\* Session.startDelivery from sender class f: [x, ok, code]
 StartDelivery(x, f) ==
   LET key == Dom(CleanMf(f))
       x1  == Take(x, key)
-  IN IF f = "rej"
-     THEN [x |-> Release(x1, key).x, ok |-> FALSE]
+  IN IF Busy(key)
+     THEN \* global and ip permits are taken, the source limiter times out, both are rolled back
+          [x |-> x, ok |-> FALSE, code |-> 451]
+     ELSE IF f = "rej"
+     THEN [x |-> Release(x1, key).x, ok |-> FALSE, code |-> 550]
      ELSE [x |-> [x1 EXCEPT !.d = TRUE, !.mf = CleanMf(f), !.ctxnil = FALSE, !.pd = NoPd, !.prc = NoPrc],
-           ok |-> TRUE]
+           ok |-> TRUE, code |-> 250]
 
 Helo(x) ==
   IF x.sx /\ x.d /\ "EhloNoLogout" \notin Devs
@@ -240,7 +259,7 @@ Mail(x, a) ==
        THEN LET sd == StartDelivery(x, a) IN
             IF ~sd.ok
             THEN \* the failure path of startDelivery sets msgCtx = nil - also that of an open delivery
-                 WithStk(IF x.d THEN Mark([sd.x EXCEPT !.ctxnil = TRUE], "NestedMail") ELSE sd.x, <<Reply(550)>>)
+                 WithStk(IF x.d THEN Mark([sd.x EXCEPT !.ctxnil = TRUE], "NestedMail") ELSE sd.x, <<Reply(sd.code)>>)
             ELSE LET x1 == IF x.d THEN Mark(sd.x, "NestedMail") ELSE sd.x
                      raw == "MailRawSender" \in Devs
                      x2 == IF raw /\ a = "up" THEN Mark(x1, "MailRawSender") ELSE x1
@@ -253,9 +272,9 @@ Rcpt(x, c) ==
   ELSE IF c.a = "syn" THEN WithStk(x, <<Reply(501)>>)
   ELSE IF x.d /\ x.ctxnil    \* trace.NewTask(nil): panic, 421, connection closed, Logout
        THEN WithStk(x, <<Reply(421), Abort(Open(x)), St("clean"), St("close")>>)
-  ELSE IF ~x.d /\ x.derr THEN WithStk(x, <<Reply(550)>>)
-  ELSE LET sd == IF x.d THEN [x |-> x, ok |-> TRUE] ELSE StartDelivery(x, x.mf) IN
-       IF ~sd.ok THEN WithStk([sd.x EXCEPT !.derr = TRUE], <<Reply(550)>>)
+  ELSE IF ~x.d /\ x.derr # 0 THEN WithStk(x, <<Reply(x.derr)>>)
+  ELSE LET sd == IF x.d THEN [x |-> x, ok |-> TRUE, code |-> 250] ELSE StartDelivery(x, x.mf) IN
+       IF ~sd.ok THEN WithStk([sd.x EXCEPT !.derr = sd.code], <<Reply(sd.code)>>)
        ELSE IF c.a = "rej" THEN WithStk(sd.x, <<Reply(550)>>)
        ELSE LET e == [r |-> c.r, up |-> c.a = "up"] IN
             WithStk(sd.x, <<[k |-> "rcptprog", e |-> e, todo |-> Route(cfg, c.r)],
@@ -278,9 +297,12 @@ BodyProg(x, kind) ==
        IN CASE kind = "ok" ->
                  WithStk(y, <<[k |-> "nabody", left |-> Open(x)], [k |-> "commit", left |-> Open(x)],
                               [k |-> "fill", cls |-> 2], St("clean")>> \o tail)
-            [] kind = "chk" ->   \* setStatusAll(err), then "always commit"
-                 WithStk([y EXCEPT !.lm = Fill(@, 5)],
-                         <<[k |-> "commit", left |-> Open(x)], St("clean")>> \o tail)
+            [] kind = "chk" ->   \* setStatusAll(err); as-is: then "always commit"
+                 IF "LmtpCommitAfterReject" \in Devs
+                 THEN WithStk(IF Open(x) # {} THEN Mark([y EXCEPT !.lm = Fill(@, 5)], "LmtpCommitAfterReject")
+                              ELSE [y EXCEPT !.lm = Fill(@, 5)],
+                              <<[k |-> "commit", left |-> Open(x)], St("clean")>> \o tail)
+                 ELSE WithStk([y EXCEPT !.lm = Fill(@, 5)], <<Abort(Open(x)), St("clean")>> \o tail)
             [] OTHER ->
                  IF "DataFailNoAbort" \in Devs
                  THEN WithStk(IF Open(x) # {} THEN Mark(y, "DataFailNoAbort") ELSE y,
